@@ -160,9 +160,80 @@ fn neighbours(algo: crate::blob::Algo) -> Vec<crate::blob::Blob> {
     v
 }
 
-fn neighbour_family(_tier: Tier) -> Vec<Program> {
+/// Keys whose index buckets are directory neighbours: k0/k1 share the first two bytes of their
+/// SHA-1 (same `index-v5/<aa>/<bb>` directory), k0/k2 only the first byte.
+fn index_neighbours() -> Vec<String> {
+    let base = "neighbour-0".to_string();
+    let h0 = crate::reffmt::sha1_hex(base.as_bytes());
+    let mut same2 = None;
+    let mut same1 = None;
+    for i in 1..400_000u32 {
+        let k = format!("neighbour-{i}");
+        let h = crate::reffmt::sha1_hex(k.as_bytes());
+        if h[..4] == h0[..4] && same2.is_none() {
+            same2 = Some(k.clone());
+        }
+        if h[..2] == h0[..2] && h[2..4] != h0[2..4] && same1.is_none() {
+            same1 = Some(k);
+        }
+        if same1.is_some() && same2.is_some() {
+            break;
+        }
+    }
+    let mut v = vec![base];
+    v.extend(same2);
+    v.extend(same1);
+    v.push("far-away".into());
+    v
+}
+
+fn neighbour_family(tier: Tier) -> Vec<Program> {
     use crate::blob::Algo;
     let mut out = Vec::new();
+    // index-directory neighbours: every removal kind applied to one of them
+    {
+        let keys = index_neighbours();
+        let n = keys.len();
+        let blobs = vec![crate::blob::Blob::new(5, 11), crate::blob::Blob::new(6, 12)];
+        for victim in 0..n {
+            for (vi, fl) in [Fl::Sync, Fl::Async].into_iter().enumerate() {
+                for kind in 0..3 {
+                    let mut steps: Vec<Step> = (0..n).map(|i| Step { op: Op::Write(WriteSpec::simple(Some(i), i % 2)), fl: if (i + vi) % 2 == 0 { Fl::Sync } else { Fl::Async } }).collect();
+                    steps.push(Step {
+                        op: match kind {
+                            0 => Op::RemoveOpts { key: victim, fully: true },
+                            1 => Op::Remove { key: victim },
+                            _ => Op::RemoveOpts { key: victim, fully: false },
+                        },
+                        fl,
+                    });
+                    steps.push(Step { op: Op::Write(WriteSpec::simple(Some(victim), 1)), fl });
+                    out.push(Program { keys: keys.clone(), blobs: blobs.clone(), steps });
+                }
+            }
+        }
+    }
+    // hundreds of generations of one key, then each removal kind (tombstone newest in a long bucket)
+    for (variant, kind) in [(0usize, 0usize), (1, 1), (2, 2)] {
+        let n = tier.pick(262usize, 700usize) + variant;
+        let mut steps: Vec<Step> = (0..n)
+            .map(|i| Step { op: Op::Write(WriteSpec::simple(Some(0), i % 2)), fl: if (i / 3 + variant) % 2 == 0 { Fl::Sync } else { Fl::Async } })
+            .collect();
+        steps.insert(0, Step { op: Op::Write(WriteSpec::simple(Some(1), 0)), fl: Fl::Sync });
+        let fl = if variant % 2 == 0 { Fl::Sync } else { Fl::Async };
+        steps.push(Step {
+            op: match kind {
+                0 => Op::Remove { key: 0 },
+                1 => Op::RemoveOpts { key: 0, fully: false },
+                _ => Op::RemoveOpts { key: 0, fully: true },
+            },
+            fl,
+        });
+        steps.push(Step { op: Op::Meta { key: 0 }, fl: Fl::Sync });
+        steps.push(Step { op: Op::Meta { key: 0 }, fl: Fl::Async });
+        steps.push(Step { op: Op::Remove { key: 1 }, fl });
+        out.push(Program { keys: vec![format!("many-generations-{variant}"), "second".into()], blobs: vec![crate::blob::Blob::new(3, 1), crate::blob::Blob::new(4, 2)], steps });
+    }
     for algo in [Algo::Sha256, Algo::Sha1] {
         let blobs = neighbours(algo);
         let n = blobs.len();
